@@ -211,12 +211,14 @@ def data_coords(ver, f):
     out = []
     right = w - 2
     up = True
-    while right >= 2:
+    # two-module-wide columns from the right; the width w-2 of the data area is odd, so the last
+    # (leftmost) column, x = 1, is one module wide
+    while right >= 1:
         for vert in range(h - 2):
             y = h - 2 - vert if up else 1 + vert
             for j in range(2):
                 x = right - j
-                if not f[y][x]:
+                if x >= 1 and not f[y][x]:
                     out.append((x, y))
         up = not up
         right -= 2
